@@ -4,6 +4,10 @@ pub mod emap {
     use vstd::std_specs::iter::IteratorSpec;
     use core::marker::PhantomData;
 
+    /// the collection `collect()` builds: a Vec (the only one the graph code collects into)
+    pub trait IsVecOf<B> { spec fn items(&self) -> Seq<B>; }
+    impl<B> IsVecOf<B> for Vec<B> { open spec fn items(&self) -> Seq<B> { self@ } }
+
     #[verifier::external_body]
     #[verifier::accept_recursive_types(V)]
     pub struct Map<V> { p: PhantomData<V> }
@@ -246,16 +250,16 @@ pub mod emap {
     impl<'a, V: Clone + 'a, P: FnMut(&(usize, &'a V)) -> bool, F: FnMut((usize, &'a V)) -> usize> FilterMap<'a, V, P, F> {
         /// the result lists f(element) for exactly the elements the predicate accepts, in iteration order
         #[verifier::external_body]
-        pub fn collect<C>(self) -> (r: Vec<usize>)
+        pub fn collect<C: IsVecOf<usize>>(self) -> (r: C)
             ensures
-                r@.len() == self.picked().len(),
+                r.items().len() == self.picked().len(),
                 forall|k: int| 0 <= k < self.picked().len() ==> 0 <= (#[trigger] self.picked()[k]) < self.src().len(),
                 forall|k: int, l: int| 0 <= k < l < self.picked().len() ==> self.picked()[k] < self.picked()[l],
-                forall|k: int| #![trigger self.picked()[k]] #![trigger r@[k]] 0 <= k < self.picked().len() ==> {
+                forall|k: int| #![trigger self.picked()[k]] #![trigger r.items()[k]] 0 <= k < self.picked().len() ==> {
                     let i = self.picked()[k];
                     &&& 0 <= i < self.src().len()
                     &&& self.pred().ensures((&(i as usize, &self.src()[i].unwrap()),), true)
-                    &&& self.f().ensures(((i as usize, &self.src()[i].unwrap()),), r@[k])
+                    &&& self.f().ensures(((i as usize, &self.src()[i].unwrap()),), r.items()[k])
                 },
                 forall|i: int| 0 <= i < self.src().len() && !self.picked().contains(i) ==>
                     self.pred().ensures((&(i as usize, &(#[trigger] self.src()[i]).unwrap()),), false),
